@@ -9,8 +9,8 @@ import subprocess
 
 import common as C
 
-THEOREMS = ['builder_roundtrip_partial', 'snapshot_immutable', 'snapshot_stable_values', 'equal_states_equal_snapshots',
-            'ill_nested_errors', 'growth_irrelevant_partial']
+THEOREMS = ['builder_roundtrip_partial', 'from_iter_session', 'snapshot_immutable', 'snapshot_stable_values', 'equal_states_equal_snapshots',
+            'ill_nested_errors', 'growth_irrelevant']
 COQ_DIR = os.path.join(C.VERIF, 'c14', 'coq')
 COQ_LOGICAL = '-R %s/coq AwkV -R . AwkBuilder' % C.VERIF
 NEEDS_SAN = True
@@ -23,14 +23,23 @@ RULE = ('sessions = command sequences over {null,bool,int,real,str,bytes,beginli
         'resize in {1.01,1.1,1.5,2} so that every buffer is reallocated at (almost) every size. non-trivial = the '
         'session has >= 1 snapshot of length >= 1 and >= 1 bracket command; distinct by session text')
 ASSUMPTIONS = [
+    'theorems: builder_roundtrip_partial covers None/bool/int/real/string/bytestring and arbitrarily nested, arbitrarily '
+    'heterogeneous lists (all Unknown/Option/Union/List/Bool/Int64/Float64/String builder transitions); records and '
+    'tuples are covered by the correspondence (Spec.unify vs implementation vs model) but not by that theorem; '
+    'snapshot_immutable, growth_irrelevant, equal_states_equal_snapshots hold for ALL sessions and builder classes; '
+    'ill_nested_errors lists the refusal cases proved (state unchanged)',
     'complex / datetime / timedelta and append / extend (IndexedBuilder) are not exercised (not modelled)',
     'only integer-valued reals (DESIGN 2.6); *_fast entry points (C-string pointer identity) not exercised',
     'simplify_uniontype / simplify_optiontype applied at snapshot time are not modelled: values are compared exactly, '
-    'types modulo the normalisation norm_ty of buildrun.ml (numeric union alternatives collapse, unknown vanishes)',
-    'the specification (Spec.unify) is applied to value sessions (optionally after a clear at a value boundary); for '
-    'ill-nested sessions the oracle is the Rocq model (error positions, values) plus the implementation against '
-    'itself (snapshot dumped when taken = dumped at the end)',
-    'LayoutBuilder (Form-driven) is not present in the pinned tree (awkward 1.4.0)',
+    'types modulo the normalisation norm_ty of buildrun.ml (numeric union alternatives collapse, unknown vanishes; '
+    'types with alternatives that simplify_uniontype may merge are not compared)',
+    'the specification (Spec.unify) is applied to value sessions (also to what follows a clear at a value boundary); for '
+    'ill-nested sessions the oracle is the Rocq model (error positions, values, types) plus the implementation against '
+    'itself (snapshot dumped when taken = dumped at the end) plus validity of every snapshot (core valid_b)',
+    'snapshot_immutable is a theorem about the model with allocation identities (Phys*.v); that each C++ '
+    'GrowableBuffer object has a single owner (no two builders share one buffer) is read off the code, and checked on '
+    'the implementation only through the re-dump of all snapshots at the end of every session (also under ASan/UBSan)',
+    'LayoutBuilder (Form-driven) is not present in the pinned tree (awkward 1.4.0); extern "C" entry points not driven',
 ]
 TRUSTED_BASE = [
     'Rocq kernel: coqc 8.16.1; no axioms (Print Assumptions parsed on this run)',
@@ -237,10 +246,10 @@ def gen_session(rng, maxlen):
     return schema, vals, cmds
 
 
-def make_case(cid, opts, cmds, vals, tags):
+def make_case(cid, opts, cmds, vals, tags, key='vals'):
     args = ['(opts %d %d)' % opts, '(cmds%s)' % ''.join(' ' + c for c in cmds)]
     if vals is not None:
-        args.append('(vals%s)' % ''.join(' ' + val_sx(v) for v in vals))
+        args.append('(%s%s)' % (key, ''.join(' ' + val_sx(v) for v in vals)))
     nontriv = any(c.startswith('begin') or c.startswith('(begin') for c in cmds) and 'snapshot' in cmds
     return C.Case(cid, 'build', args, [], dict(nontrivial=nontriv, tags=tags))
 
@@ -289,8 +298,7 @@ def cases(rng, tier):
                 pre = sprinkle(rng, pre, 'snapshot', rng.choice([0, 1, 2]))
                 post = sprinkle(rng, post, 'snapshot', rng.choice([0, 1, 2]))
                 full = pre + ['snapshot', 'clear', 'snapshot'] + post + ['snapshot']
-                out.append(make_case('s%d' % i, opts, full, None, dict(tags, stream='values+clear')))
-                # the same suffix as a fresh session carries the specification
+                out.append(make_case('s%d' % i, opts, full, vals[cut:], dict(tags, stream='values+clear'), key='valsafterclear'))
                 continue
             full = sprinkle(rng, cmds, 'snapshot', rng.choice([0, 1, 2, 4])) + ['snapshot']
             out.append(make_case('s%d' % i, opts, full, vals, dict(tags, stream=stream)))
